@@ -64,7 +64,7 @@ def run_driver(requests):
         cmd = ["lake", "env", "lean", "--run", "Driver/Main.lean"]
     data = "\n".join(json.dumps(r, ensure_ascii=False) for r in requests) + "\n"
     p = subprocess.run(cmd, cwd=os.path.join(VERIF, "lean"), input=data.encode("utf-8"), stdout=subprocess.PIPE, stderr=subprocess.PIPE, timeout=3000)
-    lines = p.stdout.decode("utf-8").splitlines()
+    lines = [l for l in p.stdout.decode("utf-8").split("\n") if l]  # not splitlines(): U+0085/U+2028 are data
     if len(lines) != len(requests):
         raise RuntimeError(f"driver returned {len(lines)} lines for {len(requests)} requests (rc={p.returncode}): {p.stderr.decode()[-500:]}")
     return [json.loads(l) for l in lines]
